@@ -162,7 +162,7 @@ func RunDaemon(t *testing.T, sc *DaemonScenario, dump io.Writer) (res RunResult)
 				for _, k := range rest {
 					if k-1 < len(kinds) && kinds[k-1] == "chain.Put" {
 						seen++
-						if seen > nput-3 { // the last three: clients are attached by then
+						if m := nput / 2; seen >= m && seen < m+3 { // three in the middle of the run: its clients are attached then
 							puts = append(puts, k)
 							continue
 						}
